@@ -11,6 +11,7 @@ Oracle     : the property itself, computed independently in Python (clamp of the
 import json
 import random
 import re
+from decimal import Decimal
 from fractions import Fraction
 
 import common as C
@@ -222,6 +223,46 @@ def run(tier):
             disagreements.append(('arith', c, ans[i], got))
     for i, rr in errs2[:3]:
         chk.violation({'kind': 'arith-error', 'case': list(ops[i]), 'source': '.c{color:%s %s %s}' % ops[i], 'actual': list(rr)})
+    # ---- a colour and a number: the number acts on every channel; whatever the operands, the result is clamped and well-formed
+    #      (seeded C08-3: one clamp bound per operator is enough for colour pairs only).  Numbers written with a decimal point
+    #      are compared exactly; integer spellings are only checked for a well-formed, clamped result (lesscpy reads them as
+    #      hexadecimal, `#102030 + 10` adds 16: outside the statement, which speaks of colours)
+    nums = ['0.5', '.25', '1.5', '-1.5', '2.0', '-2.0', '300.0', '-300.0', '0.1', '-0.5', '2', '-1', '-2', '3', '300', '-300', '10']
+    ncases = []
+    for _ in range(150 if tier == 'quick' else 3000):
+        col = '#%02x%02x%02x' % tuple(biased_byte(rng) for _ in range(3))
+        n = rng.choice(nums)
+        o = rng.choice('+-*/')
+        if o == '/' and float(n) == 0:
+            continue
+        ncases.append((col, o, n))
+    for col in ('#808080', '#80ff40', '#222222', '#010101', '#ffffff', '#000000'):
+        for n in nums:
+            for o in '+-*/':
+                ncases.append((col, o, n))
+    out3, errs3 = compile_cases(ncases, lambda i, c: '.c%d{color:%s %s %s}' % (i, c[0], c[1], c[2]))
+    for i, (col, o, n) in enumerate(ncases):
+        got = out3.get(i)
+        chk.count(('opnum', col, o, n), nontrivial=True)
+        bad = None
+        if got is None:
+            continue   # reported through errs3
+        if not re.fullmatch(r'#[0-9a-f]{6}', got):
+            bad = 'not a well-formed #rrggbb'
+        elif '.' in n:
+            q = Fraction(Decimal(n))
+            for x, z in zip(rgb_of(col), rgb_of(got)):
+                e = x + q if o == '+' else x - q if o == '-' else x * q if o == '*' else x / q
+                cl = min(Fraction(255), max(Fraction(0), e))
+                if abs(z - cl) >= 1:
+                    bad = 'channel %d: exact %s clamped %s printed %d' % (x, e, cl, z)
+        if bad:
+            chk.violation({'kind': 'arith-number', 'source': '.c{color:%s %s %s}' % (col, o, n), 'why': bad, 'actual': got})
+            if len(chk.violations) > 8:
+                break
+    for i, rr in errs3[:3]:
+        chk.violation({'kind': 'arith-number-error', 'source': '.c{color:%s %s %s}' % ncases[i], 'actual': list(rr)})
+    chk.cov['colour_number_cases'] = len(ncases)
     if ops:
         chk.sample({'case': list(ops[0]), 'source': '.c0{color:%s %s %s}' % ops[0], 'real': out2.get(0), 'model': ans[0]})
         chk.sample({'case': list(ops[-1]), 'real': out2.get(len(ops) - 1), 'model': ans[-1]})
